@@ -92,13 +92,18 @@ def _m_str_subclass(v):
   return False
 
 
-_DT_MAX = "[sD,#253402300800,sUTC]"
+# ['D', ts, zone] with an integral ts in the last 14 hours before 10000-01-01T00:00:00Z (253402300800)
+_DT_END = re.compile(r"\[sD,#(2534022[0-9]{5}),s[A-Za-z0-9_/+-]+\]")
+
+
+def _dt_end(m):
+  return "[sE,sOverflowError]" if 0 <= 253402300800 - int(m.group(1)) <= 14 * 3600 else m.group(0)
 
 
 def _m_datetime_max(v):
-  """A naive / UTC datetime within the last ~15 microseconds of year 9999 (datetime.max): dt_to_ts rounds the
-  timestamp up to 253402300800.0 (= year 10000), which moment.ts_to_dt cannot decode -> the decoded value is
-  an OverflowError error object."""
+  """A datetime within the last ~15 microseconds of year 9999 in its own zone (datetime.max; 23:59:59.999999 in
+  a zone ahead of UTC): dt_to_ts rounds the timestamp up to the next whole second, i.e. to local year 10000,
+  which moment.ts_to_dt cannot decode -> the decoded value is an OverflowError error object."""
   if v["clause"] != "C24.roundtrip":
     return False
   _calls, rts = _culprits(v["case"], v["clause"])
@@ -139,7 +144,7 @@ def _m_error_str_raises(v):
 
 MATCHERS = {
   "str_subclass_reaches_marshal": _m_str_subclass,
-  "datetime_max_rounds_to_year_10000": _m_datetime_max,
+  "datetime_end_of_9999_rounds_to_year_10000": _m_datetime_max,
   "deep_encoding_compare_recursion_after_apply": _m_deep_recursion,
   "error_whose_str_raises_fails_action": _m_error_str_raises,
 }
@@ -151,9 +156,8 @@ def _trim(case):
   c = json.loads(json.dumps(case))
   for r in c["rts"]:
     # two facts about the full tokens that the matchers read (tokens are cut below)
-    r["differs_by_class_only"] = r["enc"] != r["enc2"] and _MARK.sub("", r["enc"]) == r["enc2"]
-    r["differs_by_datetime_max_only"] = _DT_MAX in r["enc"] and \
-        r["enc"].replace(_DT_MAX, "[sE,sOverflowError]") == r["enc2"]
+    r["differs_by_class_only"] = r["enc"] != r["enc2"] and _MARK.sub("", r["enc"]) == _MARK.sub("", r["enc2"])
+    r["differs_by_datetime_max_only"] = r["enc"] != r["enc2"] and _DT_END.sub(_dt_end, r["enc"]) == r["enc2"]
     for k in ("enc", "enc2", "back"):
       if len(r[k]) > TOKEN_CAP:
         r[k] = r[k][:TOKEN_CAP] + "...(%d)" % len(r[k])
